@@ -44,6 +44,41 @@ func c09Alphabets(ver *spec.Version) (abvs, vals []string) {
 			}
 		}
 	}
+	// input-shape variants of the version's own abbreviations and values: look-alike runes whose code point is
+	// congruent to the legal byte modulo 2^8 / 2^16, and legal text padded to lengths around the powers of two
+	shape := func(w string, into map[string]bool) {
+		if w == "" {
+			return
+		}
+		for _, off := range []rune{0x100, 0x200, 0x300, 0x10000, 0xFEE0} {
+			r := []rune(w)
+			for i := range r {
+				x := append([]rune(nil), r...)
+				x[i] = r[i] + off
+				into[string(x)] = true
+			}
+			all := make([]rune, len(r))
+			for i := range r {
+				all[i] = r[i] + off
+			}
+			into[string(all)] = true
+		}
+		for _, tl := range []int{255, 256, 257, 258, 511, 512, 513, 65535, 65536, 65537} {
+			for _, fill := range []string{"\x00", " ", w[:1], "A"} {
+				for _, total := range []int{tl, tl + len(w), tl + 1} {
+					if total > len(w) {
+						into[w+strings.Repeat(fill, total-len(w))] = true
+					}
+				}
+			}
+		}
+	}
+	for _, m := range ver.Metrics {
+		shape(m.Abv, as)
+		for _, val := range m.Values {
+			shape(val, vs)
+		}
+	}
 	for _, m := range ver.Metrics {
 		for _, x := range edit1(m.Abv, c09Alpha) {
 			as[x] = true
